@@ -35,7 +35,8 @@ Record inv := mkInv {
   i_out : option Z;       (* -o <file>; None = <cache>/<slot> *)
   i_code : Z;             (* generated C code (function of sources, required modules, -D/-P, pragmas) *)
   i_cmd : Z;              (* compiler command (cc name, cflags, --release ...) *)
-  i_cc : Z;               (* ccinfo: identity/target of the compiler found behind the cc name *)
+  i_cc : Z;               (* the WORLD the C compiler reads besides the C file: the compiler behind the cc name and
+                             the headers / extra C files it includes; nelua only sees [ccinfo_of] of it *)
   i_nohead : bool;        (* pragma nocheading *)
   i_nocache : bool        (* --no-cache *)
 }.
@@ -103,6 +104,7 @@ Definition upd_owner (f : Z -> option Z) (k : Z) (v : Z) : Z -> option Z :=
 
 Section Machine.
   Variable H : Z -> Z -> Z -> hashv.        (* hash(code, ccinfo, command) *)
+  Variable ccinfo_of : Z -> Z.              (* what the target-info probe (cc -E) reveals of the world *)
   Variable cc_ok : built -> bool.           (* does the C compilation succeed *)
   Variable pol : policy.
   Variable tps : Z.                         (* ticks per second; mtimes are whole seconds *)
@@ -114,7 +116,7 @@ Section Machine.
   (* ccompiler.lua compile_code: heading .. ccode *)
   Definition mk_text (i : inv) : text :=
     (if i_nohead i then None
-     else Some (i_cmd i, if p_head_hash pol then Some (H (i_code i) (i_cc i) (i_cmd i)) else None),
+     else Some (i_cmd i, if p_head_hash pol then Some (H (i_code i) (ccinfo_of (i_cc i)) (i_cmd i)) else None),
      i_code i).
 
   Definition bp_of (i : inv) : bpath :=
